@@ -231,7 +231,7 @@ def r3_visited_on_representative(ctx, F):
                           bad='DFS: the fingerprint appended to the path is not fingerprint(successor) on every '
                               'definition (%r): the recorded path cannot be replayed' % (bad_src,))
                 sp = Spawn(F, 'DFS')
-                s = sp.b
+                s = F.norm(sp.b)
                 reps2 = [c for c in s.indirect_calls() if noref(s.val(c.fnptr)).fields()[-1:] == ('.symmetry',) or
                          'symmetry' in repr(s.val(c.fnptr))]
                 ctx.check(len(reps2) >= 1, rule, 'initial-states-canonicalised', s,
